@@ -21,6 +21,7 @@ NumCase make_case(const Spec &s, int prec, const std::vector<uint64_t> &entropy,
   std::map<std::string, long double> p = defaults_of(s.name);
   s.gen(d, p, sweep);
   long double pt[4] = {0, 0, 0, 0}; s.genpt(d, pt, p);
+  if (s.genvec) { s.genvec(d, c.vec); if (!prec) for (auto &v : c.vec) v = (long double)(double)v; }
   if (s.name == "euler_chem_1d") { c.cb_kind = d.range(0, 2);
     if (c.cb_kind == 0) { c.cb[0] = d.logU(0.1L, 10.0L); c.cb[1] = c.cb[2] = 0; }
     else if (c.cb_kind == 1) { c.cb[0] = d.logU(0.1L, 10.0L); c.cb[1] = d.U(-1.0L, 1.0L); c.cb[2] = d.logU(100.0L, 5000.0L); }
@@ -55,6 +56,7 @@ template <class Scalar> static std::vector<Outcome> run_t(const Spec &s, const N
   { Quiet q; masa_verif_reset(); masa_init<Scalar>("numcase", c.sol); }
   { Quiet q; for (auto &kv : c.params) masa_set_param<Scalar>(kv.first, (Scalar)kv.second); }
   set_callback(c.cb_kind, c.cb);
+  if (!c.vec.empty()) { std::vector<Scalar> v; for (auto x : c.vec) v.push_back((Scalar)x); Quiet q; masa_set_vec<Scalar>("vec_data", v); std::vector<Scalar> back; masa_get_vec<Scalar>("vec_data", back); std::vector<Q> qv; for (auto x : back) qv.push_back(Q((long double)x)); set_current_vec(qv); }
   auto names = param_names(sizeof(Scalar) > 8); auto held = read_params<Scalar>(names);
   PM p; for (auto &kv : held) p[kv.first] = Q(kv.second);     // the oracle sees the parameters the library holds
   Scalar pts[4]; Q ptq[4]; for (int i = 0; i < 4; i++) { pts[i] = (Scalar)c.pt[i]; ptq[i] = Q((long double)pts[i]); }
@@ -73,7 +75,7 @@ template <class Scalar> static std::vector<Outcome> run_t(const Spec &s, const N
         o.ref = Q(e.expect_err == 1 ? -1.0L : 0.0L); o.err = ok ? 0 : 1e300; o.status = ok ? 0 : 1; o.note = e.expect_err == 1 ? "invalid direction index: expected exactly -1 at every point" : "invalid direction index: expected NaN at every point";
         out.push_back(o); continue; }
       o.ref = e.ref(p, ptq);
-      auto errof = [&](const Q &r) -> double { __float128 diff = fabsq((__float128)o.lib - r.v); if (diff == 0) return 0.0; if (!(r.m > 0)) return 1e300; double v = (double)(diff / r.m / (__float128)eps); return std::isfinite(v) ? v : 1e300; };
+      auto errof = [&](const Q &r) -> double { __float128 diff = fabsq((__float128)o.lib - r.v); if (diff <= (__float128)std::numeric_limits<Scalar>::min()) return 0.0; /* underflow is not a roundoff violation */ if (!(r.m > 0)) return 1e300; double v = (double)(diff / r.m / (__float128)eps); return std::isfinite(v) ? v : 1e300; };
       o.err = std::isfinite((double)o.lib) || std::isfinite(o.lib) ? errof(o.ref) : 1e300;
       if (!std::isfinite(o.lib)) { o.status = 1; o.note = "non-finite value for finite admissible input"; }
       else if (o.err <= K) o.status = 0;
